@@ -40,7 +40,10 @@ def main() -> None:
     print("|---|---|---|---|---|")
     for mid in sorted(res):
         o = res[mid]
-        meta = json.load(open(os.path.join(V, "seeded", mid, "meta.json")))
+        mp = os.path.join(V, "seeded", mid, "meta.json")
+        if not os.path.exists(mp):
+            continue  # retired
+        meta = json.load(open(mp))
         verdicts = []
         sig = ""
         for prop, r in o["results"].items():
